@@ -19,9 +19,9 @@ VERIF = os.path.abspath(os.path.join(os.path.dirname(__file__), '..', '..', '..'
 QUICK = [('core-none', 'serde-none'), ('core-alloc', 'serde-alloc'), ('core-alloc-t32', None)]
 THOROUGH = [('core-none', 'serde-none'), ('core-half', 'serde-half'), ('core-alloc', 'serde-alloc'), ('core-alloc-half', None), ('core-std', 'serde-std'), ('core-alloc-t32', None)]
 # the 32-bit twin (target_pointer_width = "32", atomic32; thumbv7m-none-eabi, core and alloc type-checked from rust-src): the rule sets
-# whose references do not depend on the pointer width (symbolic lengths are capped at 2^27 there). C04 / C13 / C06 / C11 are not re-run there: their references describe
+# whose references do not depend on the pointer width (symbolic lengths are capped at 2^27 there). C13 / C06 / C11 are not re-run there: their references describe
 # lengths up to 2^64 (a 32-bit build legitimately answers Overflow above 2^32) and the may-panic scan of a debug-profile core differs.
-T32_RULES = ('C03', 'C05', 'C12', 'C01', 'C07')
+T32_RULES = ('C03', 'C04', 'C05', 'C12', 'C01', 'C07')
 SUBRULES = ['C03', 'C04', 'C05', 'C12', 'C01', 'C13', 'C02', 'C17']
 SERDE_RULES = ('C17', 'C02')
 
